@@ -129,17 +129,66 @@ def py_shape(sh) -> ET.Element:
     raise KeyError(k)
 
 
-def py_slide_kids(shapes) -> list:
+# non-visual properties: every shape of a slide carries <p:cNvPr id=… name=…> below its nv*Pr child.  The statement does not
+# depend on them, so a slide is written under an id POLICY (`ids`): None = as the writers above leave it (frames without
+# cNvPr, every p:sp id 2, every p:pic id 3), or [mode, arg]: "unique" (2, 3, 4, … in document order, as PowerPoint numbers
+# them), "const" (every shape the same id: a generator writing a constant), "list" (ids taken cyclically from arg: copied /
+# merged shapes that were not renumbered, ids missing (None) or empty), and the names likewise ("Table 1" for every table).
+NV_CHILD = {P + "sp": P + "nvSpPr", P + "pic": P + "nvPicPr", P + "graphicFrame": P + "nvGraphicFramePr",
+            P + "grpSp": P + "nvGrpSpPr", P + "cxnSp": P + "nvCxnSpPr"}
+ID_POOL = ["2", "3", "4", "4", "7", "1", "0", "", None, "4294967295", "x"]
+
+
+def stamp_ids(elems, ids):
+    """write the id policy into the shape elements (document order, groups included); returns elems"""
+    if not ids:
+        return elems
+    mode, arg = ids[0], (ids[1] if len(ids) > 1 else None)
+    k = 0
+    for top in elems:
+        for e in top.iter():
+            if e.tag not in NV_CHILD:
+                continue
+            nv = e.find(NV_CHILD[e.tag])
+            if nv is None:
+                nv = ET.Element(NV_CHILD[e.tag])
+                e.insert(0, nv)
+            c = nv.find(P + "cNvPr")
+            if c is None:
+                c = ET.Element(P + "cNvPr")
+                nv.insert(0, c)
+            sid = str(2 + k) if mode == "unique" else (arg if mode == "const" else arg[k % len(arg)])
+            for a in ("id", "name"):
+                c.attrib.pop(a, None)
+            if sid is not None:
+                c.set("id", sid)
+            c.set("name", "Table 1" if mode != "unique" else f"Shape {k + 1}")
+            k += 1
+    return elems
+
+
+def gen_ids(rng):
+    r = rng.random()
+    if r < 0.25:
+        return None
+    if r < 0.5:
+        return ["unique"]
+    if r < 0.7:
+        return ["const", rng.choice(["4", "2", "3", "1", "0", ""])]
+    return ["list", [rng.choice(ID_POOL) for _ in range(rng.randint(1, 4))]]
+
+
+def py_slide_kids(shapes, ids=None) -> list:
     """children of p:spTree as PowerPoint writes them"""
     nv = ET.Element(P + "nvGrpSpPr")
     gp = ET.Element(P + "grpSpPr")
-    return [nv, gp] + [py_shape(s) for s in shapes]
+    return [nv, gp] + stamp_ids([py_shape(s) for s in shapes], ids)
 
 
-def py_slide_root(shapes) -> ET.Element:
+def py_slide_root(shapes, ids=None) -> ET.Element:
     sld = ET.Element(P + "sld")
     tree = ET.SubElement(ET.SubElement(sld, P + "cSld"), P + "spTree")
-    for k in py_slide_kids(shapes):
+    for k in py_slide_kids(shapes, ids):
         tree.append(k)
     return sld
 
@@ -406,7 +455,7 @@ def gen_page(rng, negatives=False):
 # ----------------------------------------------------------------------------- oracle
 def gen_case(rng, fmt, known_shapes=False):
     if fmt == "pptxslide":
-        return {"shapes": gen_slide(rng, trimmed=not known_shapes)}
+        return {"shapes": gen_slide(rng, trimmed=not known_shapes), "ids": gen_ids(rng)}
     if fmt == "odpslide":
         return {"items": gen_page(rng, negatives=known_shapes)}
     raise KeyError(fmt)
@@ -417,7 +466,7 @@ def oracle(fmt, case):
     if fmt == "pptxslide":
         shapes = case["shapes"]
         full, stripped = pptx_truth(shapes)
-        res = c13._read("pptx", c13b.pptx_package([py_slide_kids(shapes)]))
+        res = c13._read("pptx", c13b.pptx_package([py_slide_kids(shapes, case.get("ids"))]))
         return c13._check_tables(fmt, res, full, case, known=[("pptx.cell-outer-whitespace-stripped", stripped)])
     if fmt == "odpslide":
         items = case["items"]
@@ -436,8 +485,8 @@ WITNESSES = {
 
 def case_from_broken(c):
     fmt = c.get("fmt")
-    if fmt == "pptxslide" and "shapes" in c:
-        return fmt, {"shapes": c["shapes"]}
+    if fmt in ("pptxslide", "pptxslide-tree") and "shapes" in c:
+        return "pptxslide", {"shapes": c["shapes"], "ids": c.get("ids")}
     if fmt == "odpslide" and "items" in c:
         return fmt, {"items": c["items"]}
     return None
@@ -565,6 +614,14 @@ def corr(ctx):
         real = c13._read("pptx", c13b.pptx_package([kids]))
         if c13._grids(real) != o["spec_stripped"]:
             bad("render-read:pptxslide", f"impl={c13._grids(real)!r} theorem={o['spec_stripped']!r}", case)
+        # the same slide under an id policy (shape ids / names are not part of the statement: C13_slide_pptx_tables holds
+        # for EVERY tree, the ids included)
+        ids = gen_ids(rng) or ["const", "4"]
+        ctx.count("pptxslide/lean-rendered/ids/" + ids[0])
+        real_i = c13._read("pptx", c13b.pptx_package([stamp_ids([c13b.et_from_json(k) for k in o["kids"]], ids)]))
+        if c13._grids(real_i) != o["spec_stripped"]:
+            bad("render-read:pptxslide:ids", f"ids={ids!r} impl={c13._grids(real_i)!r} theorem={o['spec_stripped']!r}",
+                dict(case, ids=ids))
         if not c13._dim_ok(real):
             bad("dim:pptxslide", f"get_dim() disagrees: {real!r}", case)
         direct = real_pptx_slide(_reparse(c13b.et_from_json(o["tree"])))
@@ -581,17 +638,22 @@ def corr(ctx):
             tree = _rand_slide_tree(rng)
             kind = "random-tree"
         else:
-            base = c13b.json_from_et(py_slide_root(gen_slide(rng)))
+            sl_shapes, sl_ids = gen_slide(rng), gen_ids(rng)
+            base = c13b.json_from_et(py_slide_root(sl_shapes, sl_ids))
             tree = base if i % 4 == 1 else c13.mutate_tree(rng, base, SLIDE_VOCAB)
-            tree = _retouch(rng, tree)
+            if i % 8 != 1:      # (a python-written slide left as written keeps its (shapes, ids): a replayable input)
+                tree = _retouch(rng, tree)
             kind = "python-written" if i % 4 == 1 else "mutated"
         tree = _tag_vids(tree)
         reqs.append({"op": "c13.slide.pptx", "tree": tree})
-        meta.append((tree, kind))
+        meta.append((tree, kind, (sl_shapes, sl_ids) if i % 8 == 1 else None))
     outs = ctx.drive(reqs)
     pos_reqs, pos_meta = [], []
-    for (tree, kind), o in zip(meta, outs):
+    for (tree, kind, written), o in zip(meta, outs):
         case = {"fmt": "pptxslide-tree", "tree": tree}
+        if written:
+            case.update(shapes=written[0], ids=written[1])
+            ctx.count("pptxslide/python-written/ids/" + (written[1][0] if written[1] else "none"))
         if "drv_error" in o:
             bad("driver:c13.slide.pptx", o["drv_error"], case)
             continue
